@@ -28,6 +28,7 @@ func checkC14(c *Ctx, r *Report) {
 	borrow(c, r, c12R1, "C12.R1.stream-read", "C14.R1.stream-read", 3, "a stream message is read as a full 2-octet length and then exactly that many octets", nil, "a length prefix that arrives split is mis-read, the stream is mis-framed and valid queries on that connection are never handled")
 	r.rule("C14.R5.label-scan", 1, "NextLabel's (and PrevLabel's) backward scan over the backslashes before a dot can reach index 0")
 	backslashScanReachesZero(c, r, "C14.R5.label-scan", []string{"NextLabel", "PrevLabel"}, "the multiplexer, which walks the question name with NextLabel, never looks up the suffix behind that dot: a query whose first label is a backslash is REFUSED although a handler for its parent zone is registered")
+	borrow(c, r, c02BoundsRun, "C02.R5.bounds", "C14.R2.decode-bounds", 80, "every buffer access of the decoders the server runs on inbound messages is entailed in bounds", nil, "a crafted datagram makes the serving goroutine panic instead of the message being reported to the invalid-message callback")
 }
 
 func isHandlerInvoke(in ssa.Instruction) bool {
